@@ -20,7 +20,8 @@ RULE = (
     "Oracle: hlg.cull(keys), materialised and evaluated, gives the same block values as the unculled graph, and its key set "
     "contains the dependency closure of the requested keys computed on the materialised full graph (complete; it may keep extra keys but never invents keys); "
     "Blockwise._cull_dependencies(blocks) equals the dependencies of the materialised tasks of those blocks; "
-    "optimize_blockwise / fuse_roots output evaluates to the unfused values; _fuse_annotations(*dicts) and the annotations "
+    "optimize_blockwise / fuse_roots output evaluates to the unfused values; chains of 2-4 of cull (to a subset of the keys still requested) / "
+    "optimize_blockwise / fuse_roots applied to each other's output keep the requested block values at every step; _fuse_annotations(*dicts) and the annotations "
     "found on fused layers obey priority=max, retries=max, resources=per-resource max, workers=intersection, "
     "allow_other_workers=all. Non-trivial: >= 3 layers with a contraction or broadcast and a strict subset of blocks "
     "requested; annotation cases where the inputs disagree."
@@ -214,6 +215,47 @@ def check_fuse(case):
             ensure(ok, f"{label}: block {k} = {short(a)} but unfused {short(b)}", "fuse-value", fn=label)
 
 
+def _same_block(a, b):
+    a, b = np.asarray(a), np.asarray(b)
+    return np.array_equal(a, b, equal_nan=True) if a.dtype.kind in "fc" else np.array_equal(a, b)
+
+
+def check_compose(case):
+    """cull / optimize_blockwise / fuse_roots applied one after the other (each cull to a subset of the keys still requested):
+    every intermediate graph is a high-level graph like any other, so each step must go through and the requested blocks must
+    keep the values of the original graph.  (What dask.array.optimization.optimize does to a graph that was culled before:
+    optimize_blockwise -> fuse_roots -> cull.)"""
+    import dask
+    from dask.blockwise import fuse_roots, optimize_blockwise
+    from dask.core import flatten
+
+    with impl("build array"):
+        d, r, _ = build_array(case)
+    g = d.__dask_graph__()
+    keys = list(flatten(d.__dask_keys__()))
+    with impl("evaluate original graph"):
+        ref = dict(zip(keys, dask.get(dict(g), keys)))
+    done = []
+    for st_ in case["chain"]:
+        fn = st_["op"]
+        # signature: the call, and whether a cull / a blockwise fusion has already been applied to the graph it receives
+        sig = dict(fn=fn, prior_cull="cull" in done, prior_fuse="optimize_blockwise" in done or "fuse_roots" in done)
+        with impl(f"{fn} after {done}", **sig):
+            if fn == "cull":
+                if st_.get("picks"):
+                    keys = sorted({keys[p % len(keys)] for p in st_["picks"]}, key=str)
+                g = g.cull(keys)
+            elif fn == "optimize_blockwise":
+                g = optimize_blockwise(g, keys=keys)
+            else:
+                g = fuse_roots(g, keys=keys)
+        done.append(fn)
+        with impl(f"evaluate the graph after {done}", **sig):
+            vals = dask.get(dict(g), keys)
+        for k, a in zip(keys, vals):
+            ensure(_same_block(a, ref[k]), f"after {done}: block {k} = {short(a)} but the original graph gives {short(ref[k])}", "compose-value", **sig)
+
+
 def fuse_ref(dicts):
     """the rules of the property statement"""
     out = {}
@@ -304,6 +346,21 @@ def graph_case(draw):
     return {"base": base, "steps": steps, "picks": picks}
 
 
+@st.composite
+def compose_case(draw):
+    case = draw(graph_case())
+    n = draw(st.integers(2, 4))
+    case["chain"] = [{"op": draw(st.sampled_from(["cull", "cull", "optimize_blockwise", "optimize_blockwise", "fuse_roots"])),
+                      "picks": draw(st.one_of(st.just([]), st.lists(st.integers(0, 30), min_size=1, max_size=3)))} for _ in range(n)]
+    return case
+
+
+def nontrivial_compose(case):
+    ops = [s["op"] for s in case["steps"]]
+    chain = [c["op"] for c in case["chain"]]
+    return len(ops) >= 2 and "cull" in chain and len(set(chain)) >= 2
+
+
 _ann = st.fixed_dictionaries(
     {},
     optional={
@@ -333,5 +390,7 @@ def nontrivial_ann(case):
 SUBCHECKS = [
     Sub("cull", check_cull, strategy=lambda tier: graph_case(), n={"quick": 1200, "thorough": 30000}, nontrivial=nontrivial_graph, classes=lambda c: sorted({s["op"] for s in c["steps"]}), doc="HLG cull soundness/completeness/values; Blockwise._cull_dependencies vs materialised tasks"),
     Sub("fuse", check_fuse, strategy=lambda tier: graph_case(), n={"quick": 1000, "thorough": 30000}, nontrivial=nontrivial_graph, classes=lambda c: sorted({s["op"] for s in c["steps"]}), doc="optimize_blockwise / fuse_roots preserve block values"),
+    Sub("compose", check_compose, strategy=lambda tier: compose_case(), n={"quick": 1000, "thorough": 30000}, nontrivial=nontrivial_compose,
+        classes=lambda c: ["chain:" + ">".join(x["op"] for x in c["chain"][:3])], doc="chains of 2-4 cull / optimize_blockwise / fuse_roots calls: every step goes through and keeps the requested block values"),
     Sub("annotations", check_annotations, strategy=lambda tier: st.lists(_ann, min_size=1, max_size=4).map(lambda a: {"annotations": a}), n={"quick": 1500, "thorough": 30000}, nontrivial=nontrivial_ann, doc="_fuse_annotations and fused-layer annotations obey the stated rules"),
 ]
